@@ -499,7 +499,7 @@ class Parser:
                     % "|".join(self.__expected)
                 )
 
-        except (ParseError, CommandError) as e:
+        except (ParseError, CommandError, UnicodeDecodeError) as e:
             self.error_pos = (
                 self.lexer.curlineno(),
                 self.lexer.curcolno(),
